@@ -744,7 +744,14 @@ theorem headerBody_conserves : headerBody.Conserves := by
   simp only [headerBody]
   split
   · exact Adv.refl s
-  · split <;> exact Adv.refl s
+  · split
+    · exact Adv.refl s
+    · split <;> exact Adv.refl s
+
+/-- the header sizes are those of message_reader.go readHeader (regenerated: the readIntN calls before the switch on the
+magic byte plus those of each case) -/
+theorem header_sizes_regenerated :
+    Gen.ConnLegacy.headerSizes = [(0, headerNeed 0), (1, headerNeed 1), (2, headerNeed 2)] := by decide
 
 theorem headerBody_local : headerBody.Local := by
   refine ⟨fun rest s he => ?_, idealBody_local.2⟩
@@ -755,7 +762,9 @@ theorem headerBody_local : headerBody.Local := by
     have hget : (s.inp ++ rest).getD 16 0 = s.inp.getD 16 0 := by
       simp [List.getD_eq_getElem?_getD, List.getElem?_append_left hlen]
     simp only [h17, ↓reduceIte, hget]
-    split <;> rfl
+    split
+    · rfl
+    · split <;> rfl
 
 /-- one exchange of a mixed run, abstractly: how it acts on a Conn, what it gives alone, the frame the broker sends -/
 structure Xch where
